@@ -2,6 +2,8 @@ FIX_COMMITS = [
     "b13780f4 Hexahedron.hessian node 3 [2][1]",
     "485169ee Hexahedron.hessian node 5 [0][2]",
     "bf209631 QuadraticTriangle.gradient dh5/ds",
+    "aaf1324b Tetrahedron(order=3) 4th point",
+    "3437b65b Tetrahedron(order=5) degree-4 table replaced",
 ]
 CHECKS = {
     "C04": {
@@ -10,6 +12,13 @@ CHECKS = {
                 "symbolically traced real element code with the reference point and bubble multiplier as variables: holds for all real points, not samples. Bounded by the list of "
                 "element classes / Lagrange orders; Lagrange identities hold within 1e-9 on [-1,1]^d (float Vandermonde inverse).",
         "note": "element constructors run concretely; Lagrange orders 1..3 quick (3,3 thorough), 4..6 in dim<=2 and order 4 in dim 3 thorough.",
+    },
+    "C05": {
+        "text": "Scheme constructors run concretely (they have no real inputs); the polynomial is symbolic (one coefficient variable per monomial of the documented degree), the quadrature sum "
+                "minus the exact integral is a linear form in the coefficients whose bound |.| <= tol on the coefficient box is refuted/proved by z3 (QF_LRA); covers every polynomial of the stated "
+                "degree by linearity. All schemes/orders/dims/permute settings are enumerated (GaussLegendre <= 3 quick, <= 8 thorough). Plus ground facts: points inside the closed reference domain, "
+                "weight sums, boundary variants, permutation multiset equality.",
+        "note": "tolerances: 1e-12 per monomial for computed tables, 1e-9 for 13-digit tables, 1e-7 for the 8-digit tetra order-2 table; BazantOh read as antipodally completed rule.",
     },
 }
 NOT_APPLICABLE = {}
